@@ -40,6 +40,7 @@ type Replay struct {
 	Target   string          `json:"target"`           // Go test function that understands Case
 	Expect   string          `json:"expect,omitempty"` // "pass" (default) or "known:<finding>"
 	Message  string          `json:"message,omitempty"`
+	Repeat   int             `json:"repeat,omitempty"` // schedule-dependent cases: run this many times
 	Case     json.RawMessage `json:"case"`
 }
 
